@@ -503,6 +503,10 @@ func (s *scope) lookupName(name unistring.String) (binding *binding, noDynamics 
 			}
 			curScope.argsNeeded = true
 			binding, _ = curScope.bindName(name)
+			if toStash && !binding.inStash {
+				// first referenced from a nested arrow function
+				binding.moveToStash()
+			}
 			return
 		}
 		if curScope.isFunction() {
